@@ -87,7 +87,9 @@ def apply(w, wn, h):
     elif op == "add_pattern":
         wn.add_pattern(a[0], [1.0, 0.5])
     elif op == "add_curve":
-        wn.add_curve(a[0], a[1], [(0.0, 10.0), (2.0, 40.0), (6.0, 90.0)] if a[1] == "VOLUME" else [(0.01, 30.0)])
+        # (the spec has no curve points; a name that is or was a volume curve keeps points a tank accepts)
+        vol = a[1] == "VOLUME" or a[0] in wn.curves.volume_curve_names
+        wn.add_curve(a[0], a[1], [(0.0, 10.0), (2.0, 40.0), (6.0, 90.0)] if vol else [(0.01, 30.0)])
     elif op == "add_source":
         wn.add_source(a[0], a[1], "CONCEN", 1.0, a[2] or None)
     elif op == "add_control":
@@ -223,7 +225,12 @@ def project(w, wn):
         v["pat_usage"] = usage(wn.patterns, wn.pattern_name_list)
         v["curve_usage"] = usage(wn.curves, wn.curve_name_list)
         for reg, nm in ((wn.nodes, "nodes"), (wn.patterns, "patterns"), (wn.curves, "curves")):
-            orph = reg.orphaned()
+            orph = set(reg.orphaned())
+            if nm == "curves":
+                # the curve a head pump names may be added later (Registry.tla, AsPumpCurve): the record of such a use is
+                # not stale as long as the pump exists and still names the curve
+                orph -= {p.pump_curve_name for _, p in wn.head_pumps()
+                         if (p.name, "Pump") in (reg.get_usage(p.pump_curve_name) or ())}
             if orph:
                 errs.append("%s registry has usage records for missing elements %s" % (nm, sorted(orph)))
     except Exception as e:
